@@ -228,3 +228,78 @@ P.unit(f"{LIB}:MoleculeLibrary.__init__", name="MoleculeLibrary[version switch +
        functions=[f"{LIB}:MoleculeLibrary.__init__", f"{LIB}:MoleculeLibrary._molecule_encoder", f"{LIB}:MoleculeLibrary._molecule_decoder"])(lib_unit("MoleculeLibrary", "mol"))
 P.unit(f"{LIB}:ConformerLibrary.__init__", name="ConformerLibrary[version switch + codec plumbing]",
        functions=[f"{LIB}:ConformerLibrary.__init__", f"{LIB}:ConformerLibrary._ensemble_encoder", f"{LIB}:ConformerLibrary._ensemble_decoder"])(lib_unit("ConformerLibrary", "ens"))
+
+
+# ------------------------------------------------------------------------------------------ Collection: every read decodes the stored bytes
+COL = "molli.storage.collection"
+
+
+@P.unit(f"{COL}:Collection.__getitem__", name="Collection[read/write plumbing]: every read decodes the stored bytes afresh",
+        functions=[f"{COL}:Collection.__init__", f"{COL}:Collection.__getitem__", f"{COL}:Collection.__setitem__", f"{COL}:Collection.items", f"{COL}:Collection.values"])
+def _collection(V):
+    I, st = V.I, V.st
+    obj = I.builtins["object"]
+    exists = V.choose([True, False], "exists")
+    Path = I.ext_models["pathlib.Path"]
+    Path.ns["exists"] = Builtin("Path.exists", lambda i, a, k: exists)
+    store = {}
+    log = []
+    B = ClassV("Backend", builtin=True, bases=[obj])
+    B.compute_mro()
+    made = []
+    B.ns["__pyvc_new__"] = lambda i, c, a, k: made.append((a, dict(k))) or Obj(B, {}, tag="backend")
+
+    def b_get(i, a, k):
+        log.append(("get", a[1]))
+        return store[a[1]]
+
+    def b_put(i, a, k):
+        log.append(("put", a[1], a[2]))
+        store[a[1]] = a[2]
+    B.ns["get"] = Builtin("get", b_get)
+    B.ns["put"] = Builtin("put", b_put)
+    B.ns["keys"] = Builtin("keys", lambda i, a, k: SetV(list(store.keys())))
+    B.ns["items"] = Builtin("items", lambda i, a, k: ListV([(k_, v_) for k_, v_ in store.items()]))
+    decoded = []
+
+    def dec(i, a, k):
+        o = Obj(obj, {"from": a[0]}, tag=f"decoded{len(decoded)}")
+        decoded.append(o)
+        return o
+    enc_calls = []
+
+    def enc(i, a, k):
+        enc_calls.append(a[0])
+        return Opaque(f"obj:bytes-of-{len(enc_calls)}")
+    cls = V.cls(f"{COL}:Collection")
+    readonly = V.choose([True, False], "readonly")
+    V.cover()
+    I.target = f"{COL}:Collection.__init__"
+    try:
+        c = I.call(cls, [V.sym("path", "str"), B], {"value_encoder": Builtin("enc", enc), "value_decoder": Builtin("dec", dec), "readonly": readonly})
+    except PyExc as e:
+        V.ensure("collection/missing-readonly-file-is-FileNotFoundError", z3.BoolVal((not exists) and readonly and Outcome("raise", exc=e.value).raised(I, "FileNotFoundError")))
+        return
+    V.ensure("collection/missing-readonly-file-is-FileNotFoundError", z3.BoolVal(exists or not readonly))
+    V.ensure("collection/backend-built-with-the-caller's-flags", z3.BoolVal(len(made) == 1 and made[0][1].get("readonly") is readonly))
+    x = Opaque("obj:molecule")
+    I.target = f"{COL}:Collection.__setitem__"
+    V.method(c, "__setitem__", ["k", x])
+    V.ensure("collection/write-stores-the-encoder-output-under-the-key", z3.BoolVal(enc_calls == [x] and log == [("put", "k", Opaque("obj:bytes-of-1"))]))
+    del log[:]
+    I.target = f"{COL}:Collection.__getitem__"
+    r1 = V.method(c, "__getitem__", ["k"])
+    r2 = V.method(c, "__getitem__", ["k"])
+    ok = r1.returned and r2.returned and len(decoded) == 2
+    V.ensure("collection/read-decodes-the-stored-bytes", z3.BoolVal(bool(ok) and r1.value is decoded[0] and decoded[0].fields["from"] == Opaque("obj:bytes-of-1")))
+    V.ensure("collection/every-read-decodes-afresh-(no-shared-result-object)", z3.BoolVal(bool(ok) and r2.value is decoded[1] and r2.value is not r1.value
+                                                                                        and decoded[1].fields["from"] == Opaque("obj:bytes-of-1")))
+    # overwrite in the backend's hands (another handle): the next read shows the new bytes
+    store["k"] = Opaque("obj:bytes-of-other-writer")
+    r3 = V.method(c, "__getitem__", ["k"])
+    V.ensure("collection/read-shows-what-the-backend-holds-now", z3.BoolVal(r3.returned and r3.value.fields["from"] == Opaque("obj:bytes-of-other-writer")))
+    n0 = len(decoded)
+    vals = list(I.iterate(V.method(c, "values", []).value))
+    its = list(I.iterate(V.method(c, "items", []).value))
+    V.ensure("collection/values-and-items-decode-per-key", z3.BoolVal(len(vals) == 1 and len(its) == 1 and len(decoded) == n0 + 2 and vals[0] is decoded[n0]
+                                                                       and its[0][0] == "k" and its[0][1] is decoded[n0 + 1]))
